@@ -106,5 +106,96 @@ theorem trim_correct (ast : Ast) (hn : noMulti ast = true) (side : TrimSide) (le
     trimValue p v = specTrim side len ast v := by
   rw [trimValue_eq, find_is_extremal ast hn side len p h v, cut_specRange]
 
+/-! ### suffix side: no hypothesis on the pattern (the leftmost / rightmost matching start does not depend on
+    which alternative of a multi-character element is tried first) -/
+
+theorem search_regex_suffix (ast : Ast) (len : TrimLength)
+    (res : List ReAtom) (hres : cAtoms ast = some res) (dot : Bool) (v : List Char) :
+    trimSearch (Pattern.mk (Body.regex
+        ((if (trimConfig .suffix len).anchorBegin then [ReAtom.bos] else []) ++ (res ++
+          (if (trimConfig .suffix len).anchorEnd then [ReAtom.eos] else []))) dot)
+      (trimConfig .suffix len)) v = specRange .suffix len ast v := by
+  unfold trimSearch
+  cases len
+  · rw [cfg_ss]
+    have := suffix_shortest_regex ast res hres false v
+    simp only [Bool.and_self, if_true]
+    rw [rfind_regex_eq]
+    simpa [Pattern.find, Pattern.at0, specRange, globMatch] using this
+  · rw [cfg_sl]
+    have := suffix_longest_regex ast res hres true v
+    simpa [Pattern.find, Pattern.at0, specRange, globMatch] using this
+
+theorem find_is_extremal_suffix (ast : Ast) (len : TrimLength)
+    (p : Pattern) (h : Pattern.fromAst ast (trimConfig .suffix len) = .ok p) (v : List Char) :
+    trimSearch p v = specRange .suffix len ast v := by
+  unfold Pattern.fromAst at h
+  split at h
+  · rename_i l hl
+    simp at h; subst h
+    exact search_literal ast .suffix len l hl v
+  · split at h
+    · simp at h
+    · rename_i r hr
+      split at h
+      · simp at h
+      · rename_i re hre
+        simp at h; subst h
+        rw [toRegex_parse ast _ r hr] at hre
+        cases hc : cAtoms ast with
+        | none => simp [hc] at hre
+        | some res =>
+          simp [hc] at hre
+          subst hre
+          exact search_regex_suffix ast len res hc _ v
+
+theorem trim_correct_suffix (ast : Ast) (len : TrimLength)
+    (p : Pattern) (h : Pattern.fromAst ast (trimConfig .suffix len) = .ok p) (v : List Char) :
+    trimValue p v = specTrim .suffix len ast v := by
+  rw [trimValue_eq, find_is_extremal_suffix ast len p h v, cut_specRange]
+
+theorem greatestUpTo_spec {p : Nat → Bool} {n : Nat} :
+    (greatestUpTo p n = none ∧ ∀ j, j ≤ n → p j = false) ∨
+    (∃ k, greatestUpTo p n = some k ∧ k ≤ n ∧ p k = true ∧ ∀ j, k < j → j ≤ n → p j = false) := by
+  induction n with
+  | zero =>
+    simp only [greatestUpTo]
+    by_cases h : p 0 = true
+    · exact Or.inr ⟨0, by simp [h], Nat.le_refl _, h, by intro j h1 h2; omega⟩
+    · have hf : p 0 = false := by simpa using h
+      refine Or.inl ⟨by simp [hf], ?_⟩
+      intro j hj
+      have hj0 : j = 0 := by omega
+      rw [hj0]; exact hf
+  | succ n ih =>
+    simp only [greatestUpTo]
+    by_cases h : p (n + 1) = true
+    · exact Or.inr ⟨n + 1, by simp [h], Nat.le_refl _, h, by intro j h1 h2; omega⟩
+    · have hf : p (n + 1) = false := by simpa using h
+      simp only [hf, Bool.false_eq_true, if_false]
+      rcases ih with ⟨h1, h2⟩ | ⟨k, h1, h2, h3, h4⟩
+      · refine Or.inl ⟨h1, ?_⟩
+        intro j hj
+        by_cases hj' : j = n + 1
+        · subst hj'; exact hf
+        · exact h2 j (by omega)
+      · refine Or.inr ⟨k, h1, by omega, h3, ?_⟩
+        intro j hj1 hj2
+        by_cases hj' : j = n + 1
+        · subst hj'; exact hf
+        · exact h4 j hj1 (by omega)
+
+/-- `%` spelled out: what is removed is a matching suffix and no shorter suffix matches -/
+theorem percent_removes_shortest (ast : Ast) (p : Pattern)
+    (h : Pattern.fromAst ast (trimConfig .suffix .shortest) = .ok p) (v : List Char) :
+    (trimValue p v = v ∧ ∀ j, j ≤ v.length → globMatch ast (v.drop j) = false) ∨
+    (∃ k, k ≤ v.length ∧ trimValue p v = v.take k ∧ globMatch ast (v.drop k) = true ∧
+      ∀ j, k < j → j ≤ v.length → globMatch ast (v.drop j) = false) := by
+  rw [trim_correct_suffix ast .shortest p h v]
+  simp only [specTrim]
+  rcases @greatestUpTo_spec (fun k => globMatch ast (v.drop k)) v.length with ⟨h1, h2⟩ | ⟨k, h1, h2, h3, h4⟩
+  · rw [h1]; exact Or.inl ⟨rfl, h2⟩
+  · rw [h1]; exact Or.inr ⟨k, h2, rfl, h3, h4⟩
+
 end Proofs
 end YashModel.Fnmatch
